@@ -161,3 +161,115 @@ contract(
                        "bytes}: 88 cases",
                  reason="package-level cloning goes through zipfile / filesystem / deepcopy (assumed dependencies)"),
 )
+
+
+# ------------------------------------------------------------------ XmlPart.clone and Element.clone (also clones of clones)
+PART_STATES = ["unloaded", "loaded", "edited"]
+PART_NAMES = ["content.xml", "styles.xml", "meta.xml"]
+
+
+def _gen2(con, sigcase, count, seed):
+    for src in ("template:text", "template:spreadsheet", "zip:" + SAMPLES[0]):
+        for pn in PART_NAMES:
+            for st in PART_STATES:
+                yield {"mode": "part", "source": src, "part": pn, "state": st}
+    for shape in ("paragraph", "table", "section"):
+        for depth in (1, 2):
+            yield {"mode": "element", "shape": shape, "depth": depth}
+
+
+def _ser(part):
+    return _c14n(part.serialize())
+
+
+def _call2(con, fn, argvals, labels):
+    from odfdo import Element, Paragraph
+    res = NativeResult()
+    res.checked = 3
+    tmp = tempfile.mkdtemp(prefix="c10p_")
+    try:
+        if argvals["mode"] == "part":
+            doc = _open(argvals["source"], tmp)
+            part = doc.get_part(argvals["part"])
+            st = argvals["state"]
+            if st != "unloaded":
+                part.root
+            if st == "edited":
+                part.root.append(Paragraph("unsaved part edit C10"))
+            before = _ser(doc.get_part(argvals["part"])) if st != "unloaded" else None
+            pc = part.clone
+            if before is None:
+                before = _ser(part)
+            if _ser(part) != before:
+                res.failures.append(("ensures:part-original-untouched", "cloning the part changed what it serialises to"))
+            if _ser(pc) != before:
+                res.failures.append(("ensures:part-equal-at-birth", f"{argvals['part']} ({st}): the clone serialises differently "
+                                                                   f"from the original"))
+            if _c14n(pc.root.serialize().encode()) != _c14n(part.root.serialize().encode()):
+                res.failures.append(("ensures:part-equal-at-birth", f"{argvals['part']} ({st}): clone.root differs from the original's"))
+            # the clone answers consistently: what it shows (root) is what it writes (serialize)
+            shown = etree.tostring(etree.fromstring(pc.root.serialize(with_ns=True).encode()), method="c14n")
+            written = etree.tostring(etree.fromstring(pc.serialize()), method="c14n")
+            if shown != written:
+                res.failures.append(("ensures:part-equal-at-birth", f"{argvals['part']} ({st}): the clone's root and its "
+                                                                   f"serialisation differ"))
+            pc.root.append(Paragraph("only in the cloned part"))
+            if _ser(part) != before:
+                res.failures.append(("ensures:part-independent", "editing the cloned part changed the original part"))
+            ref = _ser(pc)
+            part.root.append(Paragraph("only in the original part"))
+            if _ser(pc) != ref:
+                res.failures.append(("ensures:part-independent", "editing the original part changed the clone"))
+            res.outcome = f"{len(before)} bytes"
+            return res
+        # elements: a clone (and a clone of a clone) is a world of its own, also for absolute paths
+        shape, depth = argvals["shape"], argvals["depth"]
+        xml = {"paragraph": '<text:p>a<text:span text:style-name="s">b</text:span>c<text:span>d</text:span></text:p>',
+               "table": '<table:table table:name="t"><table:table-column/><table:table-row><table:table-cell><text:p>1'
+                        '</text:p></table:table-cell></table:table-row></table:table>',
+               "section": '<text:section text:name="s"><text:p>x<text:span>y</text:span></text:p><text:p>z</text:p>'
+                          '</text:section>'}[shape]
+        x = Element.from_tag(xml)
+        o = x if depth == 1 else x.clone
+        c = o.clone
+        ser0 = o.serialize()
+        if c.serialize() != ser0:
+            res.failures.append(("ensures:element-equal-at-birth", f"{shape} depth {depth}: the clone serialises differently"))
+        for q in ("//text:span", "//text:p", "descendant::text:p", "//*"):
+            n_o, n_c = len(o.get_elements(q)), len(c.get_elements(q))
+            own = len(Element.from_tag(xml).get_elements(q))      # a freshly parsed element of its own
+            if n_c != own or n_o != own:
+                res.failures.append(("ensures:element-independent", f"{shape} depth {depth}: query {q!r} finds {n_o} in the "
+                                                                    f"original and {n_c} in the clone; each holds {own}"))
+        for e in c.get_elements("//text:span") or c.get_elements("//text:p"):
+            e.text = "changed in the clone"
+        c.append(Paragraph("only in the clone"))
+        if o.serialize() != ser0:
+            res.failures.append(("ensures:element-independent", f"{shape} depth {depth}: editing the clone changed the original"))
+        ref = c.serialize()
+        for e in o.get_elements("//text:span") or o.get_elements("//text:p"):
+            e.text = "changed in the original"
+        if c.serialize() != ref:
+            res.failures.append(("ensures:element-independent", f"{shape} depth {depth}: editing the original changed the clone"))
+        res.outcome = shape
+    except Exception as e:  # noqa
+        res.failures.append(("ensures:no-crash", f"{type(e).__name__}: {e}"))
+    finally:
+        shutil.rmtree(tmp, ignore_errors=True)
+    return res
+
+
+contract(
+    "odfdo.xmlpart:XmlPart.clone / odfdo.element:Element.clone",
+    sig=dict(mode=Str),
+    ensures=[Clause(lab, {"C10"}, lambda a, r, p: True) for lab in
+             ("part-original-untouched", "part-equal-at-birth", "part-independent", "element-equal-at-birth",
+              "element-independent", "no-crash")],
+    gen=_gen2, call_native=_call2,
+    bounded=dict(scope="XmlPart.clone of content / styles / meta of 2 templates and 1 sample in states {not loaded, loaded, edited "
+                       "in memory}: equal at birth (serialisation, root, and root = serialisation of the clone), independent both "
+                       "ways; Element.clone of a paragraph with spans, a table, a section, taken from a parsed element and from "
+                       "a clone (clone of a clone): equal at birth, absolute and relative queries see only the element's own "
+                       "nodes, edits stay on their side",
+                 reason="deepcopy of lxml nodes and container bytes (assumed dependencies)"),
+)
